@@ -116,7 +116,8 @@ def occupy(rng, steps, made, pool, share=0.35):
 
 
 MALFORMED = ['nonsuffix', 'empty', 'truncated', 'binary', 'nonutf8', 'nopath', 'nodate', 'baddate',
-             'nopayload', 'orphan', 'dir_in_info', 'infodir_named_trashinfo', 'only_header', 'crlf', 'offsetdate', 'pctnonutf8', 'pctcontrol']
+             'nopayload', 'orphan', 'dir_in_info', 'infodir_named_trashinfo', 'only_header', 'crlf', 'offsetdate', 'pctnonutf8', 'pctcontrol',
+             'info_dangling_link', 'info_loop_link', 'info_link_to_dir', 'stray_dangling_link']
 
 
 def add_malformed(rng, steps, tdir, kind, tag, path_value=None):
@@ -156,6 +157,19 @@ def add_malformed(rng, steps, tdir, kind, tag, path_value=None):
             path_value or '/home/u/w/' + nm, rng.choice(['2003-03-03T10:00:00+01:00', '2003-03-03T10:00:00Z', '2003-03-03T10:00:00.123456',
                                                          '2003-03-03T10:00:00+0100', '2003-03-03T10:00:00 +01:00'])), 0o600])
         steps.append(['f', fp, 'p', 0o644])
+    elif kind == 'info_dangling_link':
+        # info/x.trashinfo is a symlink whose target is gone (a link to a file on an unplugged drive)
+        steps.append(['l', ip, rng.choice(['/no/such/drive/x.trashinfo', 'gone.trashinfo'])])
+        steps.append(['f', fp, 'p', 0o644])
+    elif kind == 'info_loop_link':
+        steps.append(['l', ip, nm + '.trashinfo'])
+        steps.append(['f', fp, 'p', 0o644])
+    elif kind == 'info_link_to_dir':
+        steps.append(['l', ip, '..'])
+        steps.append(['f', fp, 'p', 0o644])
+    elif kind == 'stray_dangling_link':
+        # any other name in info/
+        steps.append(['l', tdir + '/info/' + rng.choice(['README-', 'lost+found-', '']) + nm, '/no/where'])
     elif kind == 'pctnonutf8':
         # ASCII file content whose percent-escapes decode to bytes that are not UTF-8 (a Latin-1 name written by another tool);
         # sometimes also truncated (no date)
